@@ -61,6 +61,9 @@ inductive Documented : Ty → Prop
   | literal (vs : List Val) : Documented (.literal vs)
   | structLit (names : List String) (ts : List Ty) : (∀ t ∈ ts, Documented t) → Documented (.structLit names ts)
   | tupleLit (ts : List Ty) : (∀ t ∈ ts, Documented t) → Documented (.tupleLit ts)
+  /- `pane.types.ValueOrList` (bare: `ValueOrList[Any]`) and `ValueOrList[T]` -/
+  | valueOrListBare : Documented (.valueOrList none)
+  | valueOrList (a : Ty) : Documented a → Documented (.valueOrList (some a))
 
 /-- the part of the documented fragment whose converters fall into `InFragment` (where "member of the
 type" has a declarative meaning, `Denotes`): as `Documented`, minus the datetime rows, and with struct
@@ -79,8 +82,20 @@ inductive DocumentedCore : Ty → Prop
   | structLit (names : List String) (ts : List Ty) : names.length = ts.length → (∀ t ∈ ts, DocumentedCore t) →
       DocumentedCore (.structLit names ts)
   | tupleLit (ts : List Ty) : (∀ t ∈ ts, DocumentedCore t) → DocumentedCore (.tupleLit ts)
+  | valueOrListBare : DocumentedCore (.valueOrList none)
+  | valueOrList (a : Ty) : DocumentedCore a → DocumentedCore (.valueOrList (some a))
 
 /-- no `custom=` handler answers (the handlers of a plain `make_converter(T)` call) -/
 def NoHandlers (H : Handlers) : Prop := ∀ head n, H.answer head n = none
+
+/-- no REGISTERED handler (`register_converter_handler`) answers for the head of a standard collection
+(`tuple`, or a spelling `_ABSTRACT_MAPPING` knows) — the registered handlers may answer for anything else.
+Holds in particular when nothing is registered. -/
+def RegSilentOnContainers (env : Env) : Prop :=
+  ∀ head n, (head = "tuple" ∨ (seqKind head).isSome = true) →
+    env.registered.findSome? (fun h => h.answer head n) = none
+
+theorem regSilentOnContainers_of_nil {env : Env} (h : env.registered = []) : RegSilentOnContainers env := by
+  intro head n _; rw [h]; rfl
 
 end PaneModel
